@@ -58,3 +58,13 @@ theorem gen_isFalse_eq {N : Type} (v : Val N) : GenSlice.isFalse v = Val.isFalse
   | obj kvs => cases kvs <;> simp [GenSlice.isFalse, Val.isFalse] <;> omega
 
 end Jmes
+
+namespace Jmes
+
+/-- The comparator clause of `Execute` (interpreter.go, `case ASTComparator:` after the operands are evaluated),
+    translated from /repo's source, computes the model's `compareVals`. -/
+theorem gen_compareVals_eq {N : Type} [NumOps N] (op : Cmp) (l r : Val N) :
+    GenSlice.compareVals op l r = Interp.compareVals op l r := by
+  cases op <;> cases l <;> cases r <;> simp [GenSlice.compareVals, Interp.compareVals]
+
+end Jmes
